@@ -88,6 +88,16 @@ func (vc *VC) freshResults(sig *types.Signature, st *State, hint string) *SV {
 }
 
 func (vc *VC) havocAll(st *State, hint string) {
+	var keep [][3]string
+	for _, t := range vc.stable {
+		keep = append(keep, [3]string{t.heap, t.ref, t.lo})
+	}
+	old := st.clone()
+	defer func() {
+		for _, k := range keep {
+			st.H[k[0]] = vc.def(stateSorts[k[0]], sto2(st.H[k[0]], k[1], k[2], sel2(old.H[k[0]], k[1], k[2])), k[0])
+		}
+	}()
 	for _, k := range stateKeys {
 		if k == "next" {
 			nn := vc.fresh(stateSorts[k], "next")
